@@ -139,6 +139,8 @@ def _run(a, pid, tier, seed, t0):
         import scen2
         gens = dict(scen.GENERATORS)
         gens.update(scen2.GENERATORS2)
+        import scen3
+        gens.update(scen3.GENERATORS3)
         programs = gens[pid](tier, seed)
     ids = set()
     for p in programs:
